@@ -243,3 +243,18 @@ def run(ctx):
         do_case(ctx, {"ast": a, "stream": "valid"})
         m, op = mutate(rng, a)
         do_case(ctx, {"ast": m, "stream": "adversarial", "mut": op})
+        if rng.random() < 0.15:
+            # one more occurrence of one of the model's variables, this one DECLARED with a dtype (or the only one declared
+            # without): the same id with the same bounds — a model that merely shares a variable
+            lv = declared_bounds(a)
+            if lv:
+                name = rng.choice(sorted(lv, key=str)); lo, hi = lv[name]
+                twin = {"c": "var", "id": name, "lo": lo, "hi": hi, "$dtype": rng.choice(["bool", "int"]) if (lo, hi) == (0, 1) else "int"}
+                w = {"c": rng.choice(["Any", "All"]), "args": [a, twin]}
+                try:
+                    ow = build(w)
+                    ok = not is_var(ow) and well_formed(snap(ow))
+                except Exception:
+                    ok = False
+                if ok:
+                    do_case(ctx, {"ast": w, "stream": "valid", "mut": "variable-declared-with-and-without-dtype"})
